@@ -540,6 +540,16 @@ func rulesC02(w *World, r *Report) {
 			okGate = true
 		}
 		r.Check(okGate, "C02.R3", "propagate:xff-gate", w.instrPos(putCall), "float32 gate known/all >= xFilesFactor guards the write", why)
+		// nothing else may skip the recomputation of a touched coarser slot
+		r.Rule("C02.R6", "every touched coarser slot is recomputed: the slot write in propagate is guarded by nothing but the non-empty test on the known values and the xFilesFactor gate", 1)
+		var extra []string
+		for _, g := range blockGuards(w, putCall.Block()) {
+			if strings.Contains(g, "XFilesFactor(") || regexp.MustCompile(`^!?\(len\(whispertool\.filterValidValues\(.*\)\) (==|!=|>|<) [01]\)$`).MatchString(g) || regexp.MustCompile(`^!\(len\(p2\) == 0\)$`).MatchString(g) {
+				continue
+			}
+			extra = append(extra, g)
+		}
+		r.Check(len(extra) == 0, "C02.R6", "propagate:no-other-skip", w.instrPos(putCall), "only the two stated conditions can skip a slot", "propagate also skips the recomputation unless "+strings.Join(extra, " && ")+": a coarser slot covering a written point is neither recomputed nor propagated further")
 
 		// R4
 		var appends []*ssa.Call
